@@ -299,3 +299,112 @@ impl Layout {
         self.anchors.binary_search(&n).is_ok()
     }
 }
+
+// ------------------------------------------------------------------ stored-image faults
+
+use crate::runner::Fault;
+
+/// Apply a stored-image fault. `hlen`/`chunk` give the geometry of the
+/// encrypted stream for chunk-level edits; `other` is the second archive for splices.
+pub fn apply_fault(image: &[u8], f: &Fault, hlen: usize, chunk: usize, other: Option<&[u8]>) -> Vec<u8> {
+    let mut img = image.to_vec();
+    let chunks = |im: &[u8]| -> Vec<(usize, usize)> {
+        refmla::chunk_ranges(im.len().saturating_sub(hlen), chunk).iter().map(|r| (hlen + r.start, hlen + r.start + r.payload + r.tag)).collect()
+    };
+    match f {
+        Fault::Cut { n } => img.truncate(*n),
+        Fault::Flip { byte, bit } => {
+            if let Some(b) = img.get_mut(*byte) {
+                *b ^= 1 << (bit & 7);
+            }
+        }
+        Fault::Set { byte, val } => {
+            if let Some(b) = img.get_mut(*byte) {
+                *b = *val;
+            }
+        }
+        Fault::Field { at, len, val } => {
+            let bytes = val.to_le_bytes();
+            for i in 0..(*len).min(8) {
+                if let Some(b) = img.get_mut(at + i) {
+                    *b = bytes[i];
+                }
+            }
+        }
+        Fault::DropTail { k } => {
+            let n = img.len().saturating_sub(*k);
+            img.truncate(n);
+        }
+        Fault::Garbage { k, seed } => img.extend(crate::rng::Rng::new(*seed).bytes(*k)),
+        Fault::RawBytes { n, seed } => img = crate::rng::Rng::new(*seed).bytes(*n),
+        Fault::ChunkSwap { i, j } => {
+            let c = chunks(&img);
+            if *i < c.len() && *j < c.len() && i != j {
+                let (a, b) = (c[*i.min(j)], c[*i.max(j)]);
+                let mut out = img[..a.0].to_vec();
+                out.extend_from_slice(&img[b.0..b.1]);
+                out.extend_from_slice(&img[a.1..b.0]);
+                out.extend_from_slice(&img[a.0..a.1]);
+                out.extend_from_slice(&img[b.1..]);
+                img = out;
+            }
+        }
+        Fault::ChunkDup { i } => {
+            let c = chunks(&img);
+            if let Some(a) = c.get(*i) {
+                let mut out = img[..a.1].to_vec();
+                out.extend_from_slice(&img[a.0..a.1]);
+                out.extend_from_slice(&img[a.1..]);
+                img = out;
+            }
+        }
+        Fault::ChunkDel { i } => {
+            let c = chunks(&img);
+            if let Some(a) = c.get(*i) {
+                let mut out = img[..a.0].to_vec();
+                out.extend_from_slice(&img[a.1..]);
+                img = out;
+            }
+        }
+        Fault::ChunkMove { i, j } => {
+            // chunk j's bytes overwrite position i (lengths may differ: replace the range)
+            let c = chunks(&img);
+            if let (Some(a), Some(b)) = (c.get(*i), c.get(*j)) {
+                let mut out = img[..a.0].to_vec();
+                out.extend_from_slice(&img[b.0..b.1]);
+                out.extend_from_slice(&img[a.1..]);
+                img = out;
+            }
+        }
+        Fault::Splice { i, j } => {
+            if let Some(o) = other {
+                let c = chunks(&img);
+                let oc: Vec<(usize, usize)> = refmla::chunk_ranges(o.len().saturating_sub(hlen), chunk).iter().map(|r| (hlen + r.start, hlen + r.start + r.payload + r.tag)).collect();
+                if let (Some(a), Some(b)) = (c.get(*i), oc.get(*j)) {
+                    let mut out = img[..a.0].to_vec();
+                    out.extend_from_slice(&o[b.0..b.1]);
+                    out.extend_from_slice(&img[a.1..]);
+                    img = out;
+                }
+            }
+        }
+    }
+    img
+}
+
+pub fn fault_kind(f: &Fault) -> &'static str {
+    match f {
+        Fault::Cut { .. } => "cut",
+        Fault::Flip { .. } => "bitflip",
+        Fault::Set { .. } => "byte-set",
+        Fault::Field { .. } => "field",
+        Fault::ChunkSwap { .. } => "chunk-swap",
+        Fault::ChunkDup { .. } => "chunk-dup",
+        Fault::ChunkDel { .. } => "chunk-del",
+        Fault::ChunkMove { .. } => "chunk-move",
+        Fault::Splice { .. } => "chunk-splice",
+        Fault::DropTail { .. } => "drop-tail",
+        Fault::Garbage { .. } => "garbage-tail",
+        Fault::RawBytes { .. } => "raw-bytes",
+    }
+}
